@@ -61,12 +61,18 @@ type server struct {
 }
 
 func newServer(clk *clock, log *hookLogger, script []directive) (*server, error) {
+	return newServerPort(clk, log, script, 0)
+}
+
+// newServerPort: port 0 = any.  (ApplyConfig can only ever point the client at port 6600:
+// net.GetWhatapHosts ignores the configured port, so reconfiguration scenarios listen there.)
+func newServerPort(clk *clock, log *hookLogger, script []directive, port int) (*server, error) {
 	// Every collector stand-in gets its own loopback address (127.a.b.c): scripts that refuse
 	// connections close and re-open the listener on the same port, and with many scenarios in
 	// flight a port that is free for a moment must not be handed to another scenario's listener
 	// (a foreign client would connect and deliver its frames here).
-	ln, err := net.Listen("tcp", uniqueLoopback()+":0")
-	if err != nil {
+	ln, err := net.Listen("tcp", fmt.Sprintf("%s:%d", uniqueLoopback(), port))
+	if err != nil && port == 0 {
 		ln, err = net.Listen("tcp", "127.0.0.1:0")
 	}
 	if err != nil {
